@@ -22,5 +22,8 @@ def run(prog, chk, tier):
         # "the returned content is what those fields say": a component is decrypted exactly when its ENC tag holds the writer's encoding of SESSIONKEY
         bf3.tag_compare_rules(m, chk, "C05")
     rule_exact_reads(prog, chk, "C05")
+    from rules import adapter
+
+    adapter.mac_definition_rules(prog, chk, "C05")
     stackrt.guarded(chk, "C05.tamper-scenarios", stacktamper.tamper_rules, prog, chk, "C05", tier)
     chk.assume("cmac(data, key, iv) is the MAC of the documented layout (decided by C03/C16 clauses)")
